@@ -283,6 +283,7 @@ package boltz
 // ---------------------------------------------------------------------------
 
 //@ func (*IndexingContext).Tx
+//@   nosafety
 //@   pure
 //@   ensures result == ctxTx[ctx.Ctx]
 //@ spec isSysRow(sym Int, row Str) Bool = (and (not (f2bNull (symFT sym row) (symBytes sym row) (symBytesNil sym row))) (f2bVal (symFT sym row) (symBytes sym row)))
@@ -474,6 +475,7 @@ package boltz
 // operation runs: index maintenance neither creates nor deletes the buckets on its own index path)
 //@ spec pathB(tx Int, p (Array Int Str), n Int) Int
 //@ func Path
+//@   trusted bucket navigation: assumed to return the bucket the path names (stable name pathB) and to write nothing; proving it needs the bucket tree shape below bbolt's Tx
 //@   pure
 //@   ensures result != nil ==> result.Bucket != nil
 //@   censures[the-bucket-at-the-path] (result != nil) == (pathB(tx, arr(path), len(path)) != 0) && (result != nil ==> ref(result.Bucket) == pathB(tx, arr(path), len(path)) && result.ErrorHolderImpl != nil && result.Err == nil && fresh(result) && allocated(result.Bucket))
@@ -566,6 +568,7 @@ package boltz
 //@ implcheck C14,C01 ast.SeekableSetCursor *entitySetSymbolRuntime
 // assumed: the keys of an entity's set bucket are typed strings (they are written by SetStringList / SetListEntry only)
 //@ func (*entitySetSymbolImpl).openBoltCursor
+//@   trusted opens a bbolt cursor on the row's set bucket; assumed: the keys there are typed strings, written by SetStringList / SetListEntry only
 //@   pure
 //@   censures result != nil ==> fresh(result) && 0 <= bcLen[result] && bcLen[result] < MaxInt64 && sortedKeys(bcKeys[result], bcLen[result]) && forall(i, 0 <= i && i < bcLen[result] ==> sel(bcKeys[result], i) == prepend(TypeString, untag(sel(bcKeys[result], i))))
 // OpenCursor: repositions the (reused) runtime symbol at the start of the row's set; no bucket = empty set
@@ -639,6 +642,7 @@ package boltz
 // ---------------------------------------------------------------------------
 //@ spec rcSym(rs Int, name Str) Int
 //@ func (*rowCursorImpl).getSymbol
+//@   trusted symbol lookup in the store's symbol table (rcSym is its stable name)
 //@   modifies *
 //@   ensures ref(result) == rcSym(rs, name) && (result == nil) == (rcSym(rs, name) == 0) && rs.currentRow == old(rs.currentRow) && rs.tx == old(rs.tx) && symRow[rs] == old(symRow[rs])
 //@ define rcFT(rs, name) = symFT(rcSym(rs, name), str(rs.currentRow))
@@ -686,3 +690,13 @@ package boltz
 //@   requires scanner.store != nil && query != nil
 //@   requires[a-scanner-is-used-once] scanner.offset == 0 && scanner.count == 0 && scanner.collected == 0
 //@   modifies *
+
+// Which scan strategy serves a query: no sort or id first = the id index walked in the requested direction (ascending
+// when there is no sort field at all); anything else = the sorting scanner. Both answer alike (their own contracts);
+// this is the choice between them.
+//@ func (*BaseStore).NewScanner
+//@   props C02 C01
+//@   nosafety
+//@   modifies *
+//@   ensures[id-order-comes-from-the-id-index-in-the-requested-direction] len(sort) == 0 || sfSym[sort[0]] == "id" ==> istype(result, *uniqueIndexScanner) && as(result, *uniqueIndexScanner).forward == (len(sort) == 0 || sfAsc[sort[0]]) && as(result, *uniqueIndexScanner).store == store && as(result, *uniqueIndexScanner).offset == 0 && as(result, *uniqueIndexScanner).count == 0 && as(result, *uniqueIndexScanner).collected == 0
+//@   ensures[any-other-order-is-sorted] len(sort) > 0 && sfSym[sort[0]] != "id" ==> istype(result, *sortingScanner) && as(result, *sortingScanner).store == store && as(result, *sortingScanner).offset == 0 && as(result, *sortingScanner).count == 0
